@@ -48,7 +48,20 @@ type Chan struct {
 	rdone *bool
 }
 
+// chanError is the value of the run-time panics raised by channel misuse: send
+// on or close of a closed channel, close of a nil channel, make with a negative
+// or oversize buffer length. Like Go's it is a runtime.Error whose text carries
+// no "runtime error: " prefix.
+type chanError string
+
+func (e chanError) RuntimeError() {}
+
+func (e chanError) Error() string { return string(e) }
+
 func NewChan(eltSize, cap int) *Chan {
+	if cap < 0 || (eltSize > 0 && uintptr(cap) > maxAlloc/uintptr(eltSize)) {
+		panic(chanError("makechan: size out of range"))
+	}
 	ret := new(Chan)
 	if cap > 0 {
 		ret.data = AllocU(uintptr(cap * eltSize))
@@ -83,7 +96,14 @@ func notifyOps(p *Chan) {
 }
 
 func ChanClose(p *Chan) {
+	if p == nil {
+		panic(chanError("close of nil channel"))
+	}
 	p.mutex.Lock()
+	if p.close {
+		p.mutex.Unlock()
+		panic(chanError("close of closed channel"))
+	}
 	p.close = true
 	notifyOps(p)
 	p.mutex.Unlock()
@@ -91,12 +111,26 @@ func ChanClose(p *Chan) {
 }
 
 func ChanTrySend(p *Chan, v unsafe.Pointer, eltSize int) bool {
+	ok, closed := chanTrySend(p, v, eltSize)
+	if closed {
+		panic(chanError("send on closed channel"))
+	}
+	return ok
+}
+
+// chanTrySend reports closed instead of panicking so that a blocking Select can
+// withdraw its registrations before the panic is raised.
+func chanTrySend(p *Chan, v unsafe.Pointer, eltSize int) (ok, closed bool) {
 	n := p.cap
 	p.mutex.Lock()
+	if p.close {
+		p.mutex.Unlock()
+		return false, true
+	}
 	if n == 0 {
-		if p.getp != chanHasRecv || p.close {
+		if p.getp != chanHasRecv {
 			p.mutex.Unlock()
-			return false
+			return false, false
 		}
 		if p.data != nil {
 			c.Memcpy(p.data, v, uintptr(eltSize))
@@ -104,9 +138,9 @@ func ChanTrySend(p *Chan, v unsafe.Pointer, eltSize int) bool {
 		*p.rdone = true
 		p.getp = chanNoSendRecv
 	} else {
-		if p.len == n || p.close {
+		if p.len == n {
 			p.mutex.Unlock()
-			return false
+			return false, false
 		}
 		off := (p.getp + p.len) % n
 		c.Memcpy(c.Advance(p.data, off*eltSize), v, uintptr(eltSize))
@@ -115,7 +149,7 @@ func ChanTrySend(p *Chan, v unsafe.Pointer, eltSize int) bool {
 	notifyOps(p)
 	p.mutex.Unlock()
 	p.cond.Broadcast()
-	return true
+	return true, false
 }
 
 func ChanSend(p *Chan, v unsafe.Pointer, eltSize int) bool {
@@ -134,7 +168,7 @@ func ChanSend(p *Chan, v unsafe.Pointer, eltSize int) bool {
 		}
 		if p.close {
 			p.mutex.Unlock()
-			return false
+			panic(chanError("send on closed channel"))
 		}
 		if p.data != nil {
 			c.Memcpy(p.data, v, uintptr(eltSize))
@@ -147,7 +181,7 @@ func ChanSend(p *Chan, v unsafe.Pointer, eltSize int) bool {
 		}
 		if p.close {
 			p.mutex.Unlock()
-			return false
+			panic(chanError("send on closed channel"))
 		}
 		off := (p.getp + p.len) % n
 		c.Memcpy(c.Advance(p.data, off*eltSize), v, uintptr(eltSize))
@@ -353,8 +387,15 @@ func Select(ops ...ChanOp) (isel int, recvOK bool) {
 		endSelect(op.C, selOp, op.Send)
 	}
 	selOp.end()
+	if isel == selSendClosed {
+		panic(chanError("send on closed channel"))
+	}
 	return
 }
+
+// selSendClosed is the case index trySelectDir reports when a send case found
+// its channel closed: the select must panic, after its clean-up.
+const selSendClosed = -1
 
 func trySelect(ops []ChanOp, sendFirst bool, sendChans map[*Chan]bool) (isel int, recvOK, tryOK bool) {
 	// Split probing by direction. If sends are probed first, the recv phase must
@@ -380,7 +421,11 @@ func trySelectDir(ops []ChanOp, send bool, acceptSelectSend bool, sendChans map[
 			continue
 		}
 		if op.Send {
-			if tryOK = ChanTrySend(op.C, op.Val, int(op.Size)); tryOK {
+			var closed bool
+			if tryOK, closed = chanTrySend(op.C, op.Val, int(op.Size)); closed {
+				return selSendClosed, false, true
+			}
+			if tryOK {
 				return
 			}
 			continue
